@@ -10,11 +10,12 @@ package stream
 func (e *EventPublisher) VerifQueued() int { return len(e.publishCh) }
 
 // VerifPublishOne does what one iteration of Run does: takes exactly one queued batch (if any)
-// and hands it to publishEvent. Returns false when the queue is empty.
+// and hands it to publishBatch (which drops it when the state was replaced since it was queued).
+// Returns false when the queue is empty.
 func (e *EventPublisher) VerifPublishOne() bool {
 	select {
 	case update := <-e.publishCh:
-		e.publishEvent(update)
+		e.publishBatch(update)
 		return true
 	default:
 		return false
@@ -25,16 +26,18 @@ func (e *EventPublisher) VerifPublishOne() bool {
 // Only for single-threaded use (no Run goroutine, no concurrent Publish).
 func (e *EventPublisher) VerifQueue() [][]Event {
 	var out [][]Event
+	var raw []publishBatch
 	for {
 		select {
 		case b := <-e.publishCh:
-			out = append(out, b)
+			out = append(out, b.events)
+			raw = append(raw, b)
 			continue
 		default:
 		}
 		break
 	}
-	for _, b := range out {
+	for _, b := range raw {
 		e.publishCh <- b
 	}
 	return out
@@ -64,7 +67,7 @@ func (e *EventPublisher) VerifEvictSnapshot(req *SubscribeRequest) {
 }
 
 // VerifReady reports whether Next would return without blocking: the subscription is closed,
-// or an item with events (or an error item) is reachable from the current item.
+// or an item that Next delivers (or an error item) is reachable from the current item.
 func (s *Subscription) VerifReady() bool {
 	if s.requireStateOpen() != nil {
 		return true
@@ -76,8 +79,15 @@ func (s *Subscription) VerifReady() bool {
 			return false
 		}
 		next := raw.(*bufferItem)
-		if next.Err != nil || len(next.Events) > 0 {
+		if next.Err != nil {
 			return true
+		}
+		if len(next.Events) > 0 {
+			// the filter of Subscription.Next: batches the snapshot already contains are skipped
+			ev := newEventFromBatch(s.req, next.Events)
+			if !(ev.Index > 0 && ev.Index <= s.snapshotIndex && !ev.IsFramingEvent()) {
+				return true
+			}
 		}
 		item = next
 	}
